@@ -13,7 +13,7 @@ pub enum R {
     Unit, Hid, EchoStr, EchoU32, Idn, Fail, FailQ,
     ZU8, ZI8, ZU16, ZI16, ZU32, ZI32, ZU64, ZI64, ZUsize, ZIsize,
     ZF32, ZF64, ZBool, ZStr, ZStrB, ZHStr, ZHStrB, ZSStr, ZSStrB, ZChar, ZBlk, ZErr,
-    ZTup2, ZTup3, ZTup4, ZNest, ZSliceI16, ZHVecU32, ZHVecF64, ZHVecStr, ZUnitQ, Big,
+    ZTup2, ZTup3, ZTup4, ZNest, ZSliceI16, ZHVecU32, ZHVecF64, ZHVecStr, ZHVecBlk, ZTupSlice, ZUnitQ, Big,
 }
 
 #[derive(Clone, Copy, PartialEq, Eq, Debug)]
